@@ -487,4 +487,94 @@ example : Waits exCfg exU ⟨100, 0⟩ exS [(exO false, 101, 40000), (exO true, 
 example : (stepHeight exCfg (exO true) 102 32000 (afterTicks exCfg exS [(exO false, 101, 40000), (exO true, 102, 31999)])).2
     = [(exU, ⟨100, 0⟩)] := by decide
 
+/-! ## a failing request inside a round
+
+The pinned loop ends the watcher on a failing page request (`fetchTick`: `alive := false`; the supervisor starts a new one,
+`restart_fetches_fresh`).  A watcher may also carry on — then it stays bound by the statement.  `fetchTickKeep` (cursor
+unchanged, the round is repeated) loses nothing; `fetchTickDrop` (cursor where the failed round stopped, its pages thrown
+away) loses the pages fetched before the failing request. -/
+
+/-- A round that hands nothing over leaves a `fetchTickKeep` watcher exactly as it was … -/
+theorem keep_failed_round_is_noop (ans : Bytes → TiAns) (cnt : Option Int) (page : Nat → Int → Option Page) (fuel : Nat) (s : WState)
+    (h : (fetchTickKeep ans cnt page fuel s).2 = none) : (fetchTickKeep ans cnt page fuel s).1 = s := by
+  cases cnt with
+  | none => simp [fetchTickKeep]
+  | some c =>
+    by_cases hcf : c = s.fromIndex
+    · simp [fetchTickKeep, hcf]
+    · cases hl : pageLoop page c fuel 0 s.fromIndex [] with
+      | done next evs r => simp [fetchTickKeep, hcf, hl] at h
+      | apiErr => simp [fetchTickKeep, hcf, hl]
+      | outOfFuel => simp [fetchTickKeep, hcf, hl]
+
+/-- … and a round that succeeds is the pinned loop's round. -/
+theorem keep_agrees_when_delivering (ans : Bytes → TiAns) (cnt : Option Int) (page : Nat → Int → Option Page) (fuel : Nat) (s : WState)
+    (us : List Unconf) (h : (fetchTick ans cnt page fuel s).2 = some us) :
+    fetchTickKeep ans cnt page fuel s = fetchTick ans cnt page fuel s := by
+  cases cnt with
+  | none => simp [fetchTick] at h
+  | some c =>
+    by_cases hcf : c = s.fromIndex
+    · simp [fetchTick, hcf] at h
+    · cases hl : pageLoop page c fuel 0 s.fromIndex [] with
+      | done next evs r => simp [fetchTick, fetchTickKeep, hcf, hl]
+      | apiErr => simp [fetchTick, hcf, hl] at h
+      | outOfFuel => simp [fetchTick, hcf, hl] at h
+
+/-- **Carrying on with the cursor unchanged loses nothing**: after any number of rounds that handed nothing over (a failing
+page request at any position, a failing count request), the first healthy round against a consistent node delivers the
+admissible part of `[f, n)` — every position from where the watcher stood before the failures, each once. -/
+theorem keep_survives_failures {log : List Event} {vis size : Nat → Nat} {page : Nat → Int → Option Page}
+    (hc : Consistent log vis size page) (ans : Bytes → TiAns) (s : WState) (f c fuel : Nat)
+    (failed : List (Option Int × (Nat → Int → Option Page) × Nat))
+    (hfail : ∀ r ∈ failed, (fetchTickKeep ans r.1 r.2.1 r.2.2 s).2 = none)
+    (hf : s.fromIndex = f) (hfc : f < c) (hcv : c ≤ vis 0) (hfuel : c - f ≤ fuel) :
+    let s' := failed.foldl (fun st r => (fetchTickKeep ans r.1 r.2.1 r.2.2 st).1) s
+    ∃ n : Nat, c ≤ n ∧ n ≤ log.length ∧
+      (fetchTickKeep ans (some c) page fuel s').2 = some (handleUnconfirmed ans ((log.drop f).take (n - f))) := by
+  intro s'
+  have hs : s' = s := by
+    show failed.foldl _ s = s
+    induction failed with
+    | nil => rfl
+    | cons r rest ih =>
+      simp only [List.foldl_cons]
+      rw [keep_failed_round_is_noop ans r.1 r.2.1 r.2.2 s (hfail r (by simp))]
+      exact ih (fun r' hr' => hfail r' (by simp [hr']))
+  obtain ⟨n, h1, h2, h3, _, _⟩ := fetch_tick hc ans s f c fuel hf hfc hcv hfuel
+  refine ⟨n, h1, h2, ?_⟩
+  rw [hs, keep_agrees_when_delivering ans (some c) page fuel s _ h3]
+  exact h3
+
+/-- a consistent three-event log served one event per page; the second page request of the first round fails once -/
+private def exLogF : List Event :=
+  [⟨0, "b", "t0", 0, "-", some ⟨[7], 2, 0, 10, 1, [1]⟩⟩, ⟨1, "b", "t1", 0, "-", some ⟨[7], 2, 0, 11, 1, [1]⟩⟩, ⟨2, "b", "t2", 0, "-", some ⟨[7], 2, 0, 12, 1, [1]⟩⟩]
+private def exPageF (failAt : Option Nat) : Nat → Int → Option Page := fun k s =>
+  if failAt = some k then none else some ⟨(exLogF.drop s.toNat).take 1, (min (s.toNat + 1) 3 : Nat)⟩
+private def seqsOf (r : WState × Option (List Unconf)) : Option (List Nat) := r.2.map fun us => us.map (·.msg.seq)
+
+/-- **Dropping the fetched pages of a failed round loses messages** — the witness: three token-bridge messages, pages of one
+event, the second page request fails once.  The watcher that moves on from where the failed round stopped hands over
+nothing in that round and sequences 11 and 12 in the next: sequence 10, fetched in the first page, is never handed over
+and never asked for again (the cursor is past it).  The watcher that repeats the round hands over all three. -/
+theorem dropped_pages_are_lost :
+    seqsOf (fetchTickDrop (fun _ => .apiErr) (some 3) (exPageF (some 1)) 5 {}) = none ∧
+    (fetchTickDrop (fun _ => .apiErr) (some 3) (exPageF (some 1)) 5 {}).1.fromIndex = 1 ∧
+    seqsOf (fetchTickDrop (fun _ => .apiErr) (some 3) (exPageF none) 5 (fetchTickDrop (fun _ => .apiErr) (some 3) (exPageF (some 1)) 5 {}).1) = some [11, 12] ∧
+    seqsOf (fetchTickKeep (fun _ => .apiErr) (some 3) (exPageF none) 5 (fetchTickKeep (fun _ => .apiErr) (some 3) (exPageF (some 1)) 5 {}).1) = some [10, 11, 12] := by
+  decide
+
+example : (fetchTick (fun _ => .apiErr) (some 3) (exPageF (some 1)) 5 {}).1.alive = false := by decide
+-- the hypotheses of `keep_survives_failures`: a failing second page request, then a failing count request, from index 0
+example : ∀ r ∈ [(some (3 : Int), exPageF (some 1), 5), (none, exPageF none, 5)], (fetchTickKeep (fun _ => .apiErr) r.1 r.2.1 r.2.2 {}).2 = none := by decide
+example : (fetchTickKeep (fun _ => .apiErr) (some 3) (exPageF (some 0)) 5 {}).2 = none
+    ∧ (fetchTickKeep (fun _ => .apiErr) (some 3) (exPageF (some 0)) 5 {}).1.fromIndex = 0 := by decide
+example : seqsOf (fetchTick (fun _ => .apiErr) (some 3) (exPageF none) 5 {}) = some [10, 11, 12] := by decide
+
+/-! ## token metadata is asked for in the token's own group
+
+`ans` — the answers of the token contracts — is indexed by the token id alone: the model asks for the metadata of token `t`
+where `t` lives (the group is the last byte of the id), whatever group the bridge is configured for.  So a genuine attestation
+is delivered whatever the two groups are: `genuine_attest_delivered` above has no hypothesis about them. -/
+
 end Whv.C09
